@@ -422,6 +422,32 @@ impl Elem for Fat {
     }
 }
 
+/// Drop-tracked 512-byte element: a modest number of these exceeds size thresholds
+/// (1 KiB, 64 KiB) while every element still has an identity.
+pub struct FatTok {
+    t: Tok,
+    pad: [u64; 63],
+}
+impl Elem for FatTok {
+    const NAME: &'static str = "FatTok(512B,tracked)";
+    const TRACKED: bool = true;
+    const KEYED: bool = true;
+    fn fresh() -> FatTok {
+        let t = Tok::new();
+        let id = t.raw_id();
+        FatTok { t, pad: [mix(id); 63] }
+    }
+    fn raw(&self) -> u64 {
+        self.t.raw_id()
+    }
+    fn key(&self) -> u64 {
+        if self.pad[0] != mix(self.t.raw_id()) || self.pad[62] != self.pad[0] {
+            ledger::pad_corrupt(self.t.raw_id());
+        }
+        self.t.key()
+    }
+}
+
 /// Keys of a slice of elements, in order.
 pub fn keys<E: Elem>(xs: &[E]) -> Vec<u64> {
     let _m = crate::alloc::Mask::new();
